@@ -6,6 +6,7 @@ use crate::reg::Reg;
 #[cfg(feature = "c04")] pub mod c04;
 #[cfg(feature = "c07")] pub mod c07;
 #[cfg(feature = "c09")] pub mod c09;
+#[cfg(feature = "c08")] pub mod c08;
 
 pub fn register(prop: &str, reg: &mut Reg) {
     match prop {
@@ -14,6 +15,7 @@ pub fn register(prop: &str, reg: &mut Reg) {
         #[cfg(feature = "c04")] "C04" => c04::register(reg),
         #[cfg(feature = "c07")] "C07" => c07::register(reg),
         #[cfg(feature = "c09")] "C09" => c09::register(reg),
+        #[cfg(feature = "c08")] "C08" => c08::register(reg),
         _ => { eprintln!("symx: property {} not available in this build", prop); std::process::exit(2); }
     }
 }
